@@ -8,10 +8,11 @@
   naturals / integers by induction; every enum table by exhaustive check), hence re-setting an
   option from its reported text is the identity — except for the master switch
   `datafusion.optimizer.enable_dynamic_filter_pushdown`, whose `set` also overwrites four other
-  options (`set_shown_not_identity_with_fanout`).  A rejected value leaves the configuration
-  unchanged — except when the option is an `Option<F>` that is currently `None`, where the blanket
-  impl leaves `Some(F::default())` behind (`invalid_value_changes_none_option`).  Both exceptions
-  are reproduced on the real code (notes/C43.md).
+  options (`set_shown_not_identity_with_fanout`, reproduced on the real code, open finding).
+  A rejected value leaves the configuration unchanged, for EVERY option (`invalid_rejected_unchanged`,
+  about `set true` = the code after /repo 32d6403).  In the pinned upstream code (`set false`) this
+  was false for an `Option<F>` that is currently `None`: the blanket impl left `Some(F::default())`
+  behind (`invalid_value_changes_none_option`, kept as the witness of the repaired defect).
 -/
 import DfModel.Text.Config
 import DfModel.Proofs.C43
@@ -59,13 +60,13 @@ theorem enum_tables_ok :
 /-- the statement of the property, first half: re-setting any reported value changes nothing -/
 def set_shown_is_identity_statement : Prop :=
   ∀ (cfg : Config) (e : Entry) (t : List Char), e ∈ cfg → (cfg.map (·.key)).Nodup →
-    (∀ x ∈ cfg, Valid x.kind x.val) → «show» e.kind e.val = some t → Text.Config.set cfg e.key t = (cfg, true)
+    (∀ x ∈ cfg, Valid x.kind x.val) → «show» e.kind e.val = some t → Text.Config.set true cfg e.key t = (cfg, true)
 
 /-- **proved part**: for every option that does not fan out.  Missing: the one option that does
     (`enable_dynamic_filter_pushdown`), for which the statement is false. -/
 theorem set_shown_is_identity_partial (cfg : Config) (e : Entry) (t : List Char) (hmem : e ∈ cfg)
     (hnd : (cfg.map (·.key)).Nodup) (hv : Valid e.kind e.val) (hs : «show» e.kind e.val = some t)
-    (hf : e.fanout = []) : Text.Config.set cfg e.key t = (cfg, true) := by
+    (hf : e.fanout = []) (repaired : Bool := true) : Text.Config.set repaired cfg e.key t = (cfg, true) := by
   unfold Text.Config.set
   rw [find_key_eq cfg e hmem hnd]
   simp only [Proofs.C43.parse_show e.kind e.val t hv hs, hf]
@@ -85,13 +86,29 @@ theorem set_shown_not_identity_with_fanout : ¬ set_shown_is_identity_statement 
   decide
 
 /-- the statement of the property, last part: a rejected value changes nothing -/
-def invalid_rejected_unchanged_statement : Prop :=
-  ∀ (cfg : Config) (key : Nat) (t : List Char), (Text.Config.set cfg key t).2 = false → (Text.Config.set cfg key t).1 = cfg
+def invalid_rejected_unchanged_statement (repaired : Bool) : Prop :=
+  ∀ (cfg : Config) (key : Nat) (t : List Char),
+    (Text.Config.set repaired cfg key t).2 = false → (Text.Config.set repaired cfg key t).1 = cfg
 
-/-- **proved part**: for every option that is not a currently-`None` `Option<F>` (blanket impl). -/
+/-- **C43, last part, in full for the current code** (after /repo 32d6403): whatever the
+    configuration, key and text — unknown key, any kind, `Option<F>` currently `None` included — a
+    `set` that returns an error leaves the whole configuration exactly as it was. -/
+theorem invalid_rejected_unchanged : invalid_rejected_unchanged_statement true := by
+  intro cfg key t h
+  unfold Text.Config.set at h ⊢
+  cases hf : cfg.find? (fun e => e.key == key) with
+  | none => rfl
+  | some e =>
+    simp only [hf] at h ⊢
+    cases hp : parse e.kind t with
+    | some v => simp [hp] at h
+    | none => simp
+
+/-- the same for the upstream code, restricted to options that are not a currently-`None`
+    `Option<F>` (this was all that held before the repair) -/
 theorem invalid_rejected_unchanged_partial (cfg : Config) (key : Nat) (t : List Char)
     (hopt : ∀ e ∈ cfg, e.key = key → ∀ k, e.kind = .opt k → e.val ≠ .none)
-    (h : (Text.Config.set cfg key t).2 = false) : (Text.Config.set cfg key t).1 = cfg := by
+    (h : (Text.Config.set false cfg key t).2 = false) : (Text.Config.set false cfg key t).1 = cfg := by
   unfold Text.Config.set at h ⊢
   cases hf : cfg.find? (fun e => e.key == key) with
   | none => rfl
@@ -102,20 +119,24 @@ theorem invalid_rejected_unchanged_partial (cfg : Config) (key : Nat) (t : List 
     cases hp : parse e.kind t with
     | some v => simp [hp] at h
     | none =>
-      simp only [hp]
+      simp only [hp, Bool.false_eq_true, if_false]
       split
       · rename_i k hk hv
         exact absurd hv (hopt e hmem hkey k hk)
       · rfl
 
-/-- `bloom_filter_ndv: Option<u64>` is `None`; `SET … = 'abc'` is rejected, and afterwards the
-    option reports `0`. -/
-theorem invalid_value_changes_none_option : ¬ invalid_rejected_unchanged_statement := by
+/-- **the repaired defect** (upstream code, `set false`): `bloom_filter_ndv: Option<u64>` is `None`;
+    `SET … = 'abc'` is rejected, and afterwards the option reports `0`. -/
+theorem invalid_value_changes_none_option : ¬ invalid_rejected_unchanged_statement false := by
   intro h
   have := h [⟨0, .opt (.uint (2 ^ 64 - 1)), .none, []⟩] 0 "abc".toList (by decide)
   have h2 := congrArg entries this
   revert h2
   decide
+
+/-- …and the same history on the repaired code leaves the option unset. -/
+example : entries (Text.Config.set true [⟨0, .opt (.uint (2 ^ 64 - 1)), .none, []⟩] 0 "abc".toList).1
+    = [(0, none)] := by decide
 
 /-! ### non-vacuity -/
 
